@@ -91,9 +91,12 @@ package bridgesync
 
 //@ func (p *processor) Reorg
 //@   props C04 C14
+//@   sqltext "DELETE FROM block WHERE num >= $1;"
 //@   requires p != nil && p.db != nil && p.log != nil && p.exitTree != nil && p.exitTree.Tree != nil
 //@   requires lastTx < heapTop
 //@   modifies heap
+//@   ensures[exit-roots-from-that-block-on-dropped] result == nil ==> forall(i, int, rootHas(p.exitTree.Tree)[i] == (old(rootHas(p.exitTree.Tree))[i] && rootBlock(p.exitTree.Tree)[i] < firstReorgedBlock))
+//@   ensures[committed-only-if-every-statement-succeeded] result == nil ==> stmtFail == old(stmtFail)
 //@   ensures[all-or-nothing] lastTx != old(lastTx) ==> ((result == nil ==> txState(lastTx) == 1) && (result != nil ==> txState(lastTx) == 2))
 //@   ensures[no-transaction-no-success] lastTx == old(lastTx) ==> result != nil
 //@   ensures[halt-cleared-only-by-a-committed-reorg] p.halted != old(p.halted) ==> (result == nil && !p.halted && lastTx != old(lastTx) && txState(lastTx) == 1)
